@@ -1,14 +1,16 @@
 #!/bin/bash
 # usage: seedrun.sh [name-prefix]   -- re-run the property check against every kept seeded change
 # and refresh detected/check_output in its meta.json
+# SEED_REPO=<worktree of /repo HEAD>: use that tree instead of /repo (several prefixes can run in parallel)
+R=${SEED_REPO:-/repo}
 cd /verif/seeded
 for d in ${1:-}*/; do
   n=${d%/}; p=$(python3 -c "import json;print(json.load(open('/verif/seeded/$n/meta.json'))['property'])")
-  git -C /repo apply /verif/seeded/$n/patch.diff || { echo "$n: patch does not apply"; continue; }
+  git -C $R apply /verif/seeded/$n/patch.diff || { echo "$n: patch does not apply"; continue; }
   t0=$(date +%s)
-  (cd /verif && VERIF_EVIDENCE_DIR=/tmp/verif-seed-evidence VERIF_NO_TV=1 timeout 1800 /verif/bin/vcheck run $p 2>&1 | grep -a "^VIOLATION" > /tmp/seedrun.$$)
-  git -C /repo checkout -q -- .
-  python3 - "$n" /tmp/seedrun.$$ $(( $(date +%s)-t0 )) <<'P'
+  (cd /verif && VERIF_REPO=$R VERIF_EVIDENCE_DIR=/tmp/verif-seed-evidence-$p VERIF_NO_TV=1 timeout 1800 /verif/bin/vcheck run $p 2>&1 | grep -a "^VIOLATION" > /tmp/seedrun.$$.$n)
+  git -C $R checkout -q -- .
+  python3 - "$n" /tmp/seedrun.$$.$n $(( $(date +%s)-t0 )) <<'P'
 import json,sys
 n,f,secs=sys.argv[1],sys.argv[2],int(sys.argv[3])
 lines=[l.strip() for l in open(f) if l.strip()]
@@ -17,5 +19,5 @@ m=json.load(open(p)); m['detected']=len(lines)>0; m['check_output']=lines[:6]; m
 json.dump(m,open(p,'w'),indent=1)
 print('%s: violations=%d (%ds)'%(n,len(lines),secs))
 P
-  rm -f /tmp/seedrun.$$
+  rm -f /tmp/seedrun.$$.$n
 done
